@@ -1,9 +1,10 @@
 """C07 -- transfer-function estimates recover gain and phase with the right sign, on every backend."""
+import numpy as rnp
 from . import kernels as K, result as R, C01
 
 PROPERTY = "C07"
 META = {
-    "bounds": {"quick": "gain: 9 csd functions, L in 1..4, K<=2, N=L+2, symbolic x, window, omega, gain g; delay: N=L in 2..4, K=1, constant symbolic window, every circular delay d<L, omega ANY L-th root of unity (constraint (c+is)^L=1 on symbolic c,s), orders -1 and 0, three backends; composition with SpectrumResult.Hxy/coh on a generic bin",
+    "bounds": {"quick": "gain after the buffers were refilled in place (second call, L=2, K=2, orders 0 and 1, three backends); gain: 9 csd functions, L in 1..4, K<=2, N=L+2, symbolic x, window, omega, gain g; delay: N=L in 2..4, K=1, constant symbolic window, every circular delay d<L, omega ANY L-th root of unity (constraint (c+is)^L=1 on symbolic c,s), orders -1 and 0, three backends; composition with SpectrumResult.Hxy/coh on a generic bin",
                "thorough": "gain up to L=6,K<=3; delay up to L=6"},
     "outside": ["the d/L magnitude edge effect of a linear (non-circular) delay under a tapered window", "IEEE rounding"],
     "stubs": C01.META["stubs"],
@@ -23,6 +24,26 @@ def ob_gain(W, backend, fam, L, starts, order, N):
     W.goal("gain/ReXY=g*XX", W.eq(c[2], c[0] * g))
     W.goal("gain/ImXY=0", W.eq(c[3], 0))
     W.goal("gain/YY=g^2*XX", W.eq(c[1], c[0] * g * g))
+
+
+def ob_gain_history(W, backend, fam, L, starts, order, N):
+    """a measurement repeated after the record buffers were refilled in place (first y = g1*x, then new x and y = g2*x): the second
+    call gives the new gain -- nothing kept from the first call (device copies, caches) may be used"""
+    x = W.reals("x", N); g1 = W.real("g1"); g2 = W.real("g2")
+    y = x * g1 if W.sym else rnp.asarray(x, dtype=float) * float(g1)
+    if not W.sym:
+        x = rnp.asarray(x, dtype=float)
+    w = W.reals("w", L)
+    om = W.omega("w")
+    K.run(W, backend, fam, "csd", x, y, starts, L, w, om, order)
+    x2 = W.reals("p", N)
+    x[:] = x2
+    y[:] = (x2 * g2) if W.sym else rnp.asarray(x2, dtype=float) * float(g2)
+    c = K.run(W, backend, fam, "csd", x, y, starts, L, w, om, order)
+    ref = K.run(W, backend, fam, "auto", rnp.array(list(x2), dtype=object) if W.sym else rnp.array(x2, dtype=float), None, starts, L, w, om, order)
+    W.goal("second measurement: Re XY = g2*XX", W.eq(c[2], ref[0] * g2))
+    W.goal("second measurement: Im XY = 0", W.eq(c[3], 0))
+    W.goal("second measurement: XX of the new record", W.eq(c[0], ref[0]))
 
 
 def ob_chain(W):
@@ -105,6 +126,9 @@ def obligations(tier):
                         continue
                     obs.append({"name": "gain/%s/%s/o%d/L%d/s%s" % (backend, fam, order, L, "-".join(map(str, st))), "fn": "ob_gain",
                                 "params": dict(backend=backend, fam=fam, L=L, starts=st, order=order, N=L + 2), "weight": L * len(st)})
+        for order in (0, 1):
+            fam = K.family_of(order)
+            obs.append({"name": "gain-history/%s/%s/o%d" % (backend, fam, order), "fn": "ob_gain_history", "params": dict(backend=backend, fam=fam, L=2, starts=[1, 0], order=order, N=4), "weight": 4})
         for order in (-1, 0):
             fam = K.family_of(order)
             for L in range(2, Lmax + 1):
